@@ -529,6 +529,159 @@ theorem storeInt_canon_base16 (t : IntTy) (range : List (Int × Int)) (hints : N
   rw [intDec_eq]
   exact ⟨sgnOf v, natDec v.natAbs, v.natAbs, rfl, sgnOf_isSign v, natDec_lex16 hsmall, by rw [applySign_sgnOf]⟩
 
+/-! ### … and only then: the exact set of values whose canonical string is read back unchanged -/
+
+theorem valOf8_natDec_le (n : Nat) : valOf 8 (natDec n) ≤ n := by
+  induction n using Nat.strongRecOn with
+  | _ n ih =>
+    by_cases h : n < 10
+    · rw [natDec_lt10 h]; simp [valOf, digitChar_raw h]
+    · rw [natDec_ge10 h, valOf_snoc, digitChar_raw (Nat.mod_lt _ (by decide))]
+      have := ih (n / 10) (by omega)
+      omega
+
+/-- two or more decimal digits read in base 8 give a smaller number -/
+theorem valOf8_natDec_lt {n : Nat} (h : ¬ n < 10) : valOf 8 (natDec n) < n := by
+  rw [natDec_ge10 h, valOf_snoc, digitChar_raw (Nat.mod_lt _ (by decide))]
+  have := valOf8_natDec_le (n / 10)
+  omega
+
+theorem valOf16_natDec_ge (n : Nat) : n ≤ valOf 16 (natDec n) := by
+  induction n using Nat.strongRecOn with
+  | _ n ih =>
+    by_cases h : n < 10
+    · rw [natDec_lt10 h]; simp [valOf, digitChar_raw h]
+    · rw [natDec_ge10 h, valOf_snoc, digitChar_raw (Nat.mod_lt _ (by decide))]
+      have := ih (n / 10) (by omega)
+      omega
+
+/-- two or more decimal digits read in base 16 give a greater number -/
+theorem valOf16_natDec_gt {n : Nat} (h : ¬ n < 10) : n < valOf 16 (natDec n) := by
+  rw [natDec_ge10 h, valOf_snoc, digitChar_raw (Nat.mod_lt _ (by decide))]
+  have := valOf16_natDec_ge (n / 10)
+  omega
+
+theorem applySign_inj {sg : Bytes} {a b : Nat} (h : applySign sg a = applySign sg b) : a = b := by
+  unfold applySign at h
+  split at h <;> omega
+
+/-- a canonical string that is a lexical value of the base: it has no white space, its sign is the sign of the value and
+    its digits are the number -/
+theorem ScanSpec.lexws_intDec {base : Nat} {scan : Bytes → Option (Nat × Bytes)} {NL : Bytes → Nat → Prop}
+    (S : ScanSpec base scan NL) {v w : Int} (h : IntLexWsG NL (intDec v) w) :
+    ∃ m, NL (natDec v.natAbs) m ∧ w = applySign (sgnOf v) m := by
+  obtain ⟨l, core, r, hs, hl, hr, sg, body, m, hcore, hsg, hb, hw⟩ := h
+  -- the digits
+  obtain ⟨d, ds, hnd⟩ : ∃ d ds, natDec v.natAbs = d :: ds := by
+    cases hn : natDec v.natAbs with
+    | nil => exact absurd hn (natDec_ne_nil _)
+    | cons d ds => exact ⟨d, ds, rfl⟩
+  have hdig := natDec_all_digits v.natAbs
+  have hd : isDigit d = true := by
+    rw [hnd] at hdig; simp only [List.all_cons, Bool.and_eq_true] at hdig; exact hdig.1
+  have hd45 : d ≠ 45 ∧ d ≠ 43 := by
+    constructor <;> (intro h0; subst h0; revert hd; decide)
+  -- no white space anywhere in the canonical string
+  have hnsp : ∀ c ∈ intDec v, isSpace c = false := by
+    intro c hc
+    rw [intDec_eq, List.mem_append] at hc
+    rcases hc with hc | hc
+    · unfold sgnOf at hc
+      split at hc
+      · simp at hc; subst hc; decide
+      · simp at hc
+    · exact digit_not_space ((all_iff.mp hdig) c hc)
+  have hl0 : l = [] := by
+    cases l with
+    | nil => rfl
+    | cons a t =>
+      have h1 := hnsp a (by rw [hs]; simp)
+      simp only [List.all_cons, Bool.and_eq_true] at hl
+      rw [hl.1] at h1; cases h1
+  have hr0 : r = [] := by
+    cases r with
+    | nil => rfl
+    | cons a t =>
+      have h1 := hnsp a (by rw [hs]; simp)
+      simp only [List.all_cons, Bool.and_eq_true] at hr
+      rw [hr.1] at h1; cases h1
+  subst hl0; subst hr0; subst hcore
+  simp only [List.nil_append, List.append_nil] at hs
+  obtain ⟨c, tl, hbody, hc⟩ := S.head hb
+  have hc45 : c ≠ 45 ∧ c ≠ 43 := ⟨(hex_not_special hc).1, (hex_not_special hc).2.1⟩
+  rw [intDec_eq, hnd] at hs
+  refine ⟨m, ?_, ?_⟩
+  · -- the body is the digit string
+    rw [hnd]
+    unfold sgnOf at hs
+    split at hs
+    · rcases hsg with rfl | rfl | rfl
+      · rw [hbody] at hs; simp at hs; exact absurd hs.1.symm hc45.1
+      · simp at hs
+      · simp at hs; rw [hs]; exact hb
+    · rcases hsg with rfl | rfl | rfl
+      · simp at hs; rw [hs]; exact hb
+      · simp at hs; exact absurd hs.1 hd45.2
+      · simp at hs; exact absurd hs.1 hd45.1
+  · -- the sign is the sign of `v`
+    rw [hw]
+    by_cases hneg : v < 0
+    · have e : sgnOf v = [45] := by unfold sgnOf; rw [if_pos hneg]
+      rw [e] at hs ⊢
+      rcases hsg with rfl | rfl | rfl
+      · rw [hbody] at hs; simp at hs; exact absurd hs.1.symm hc45.1
+      · simp at hs
+      · rfl
+    · have e : sgnOf v = [] := by unfold sgnOf; rw [if_neg hneg]
+      rw [e] at hs ⊢
+      rcases hsg with rfl | rfl | rfl
+      · rfl
+      · simp at hs; exact absurd hs.1 hd45.2
+      · simp at hs; exact absurd hs.1 hd45.1
+
+/-- under hints that select base 8 the canonical string of an admissible value is read back as that value exactly when it
+    is a single octal digit with optional `-` -/
+theorem storeInt_canon_base8_iff (t : IntTy) (range : List (Int × Int)) (hints : Nat) (v : Int)
+    (hb : checkHints hints t.name = some 8) (hwf : PartsWF t.min t.max range)
+    (hlo : t.min ≤ v) (hhi : v ≤ t.max) (hin : InParts range v) :
+    storeInt t range hints (canonInt v) = .ok v ↔ v.natAbs < 8 := by
+  constructor
+  · intro h
+    have hl := ((storeInt_accept_iff_base8 t range hints _ v (intDec_no_nul v) hb hwf).mp h).1
+    obtain ⟨m, ⟨_, hoct, hm⟩, hv⟩ := scanSpec8.lexws_intDec hl
+    have hmn : v.natAbs = m := applySign_inj (sg := sgnOf v) (by rw [applySign_sgnOf, ← hv])
+    by_cases h10 : v.natAbs < 10
+    · rw [natDec_lt10 h10] at hoct
+      simp only [List.all_cons, List.all_nil, Bool.and_true] at hoct
+      have h1 := (isOctDigit_iff _).mp hoct
+      have h2 := digitChar_toNat h10
+      omega
+    · have := valOf8_natDec_lt h10
+      omega
+  · exact storeInt_canon_base8 t range hints v hb hwf hlo hhi hin
+
+/-- … under hints that select base 16: exactly when it is a single decimal digit with optional `-` -/
+theorem storeInt_canon_base16_iff (t : IntTy) (range : List (Int × Int)) (hints : Nat) (v : Int)
+    (hb : checkHints hints t.name = some 16) (hwf : PartsWF t.min t.max range)
+    (hlo : t.min ≤ v) (hhi : v ≤ t.max) (hin : InParts range v) :
+    storeInt t range hints (canonInt v) = .ok v ↔ v.natAbs < 10 := by
+  constructor
+  · intro h
+    have hl := ((storeInt_accept_iff_base16 t range hints _ v (intDec_no_nul v) hb hwf).mp h).1
+    obtain ⟨m, hnl, hv⟩ := scanSpec16.lexws_intDec hl
+    have hmn : v.natAbs = m := applySign_inj (sg := sgnOf v) (by rw [applySign_sgnOf, ← hv])
+    rcases hnl with ⟨x, ds, hnd, hx, _⟩ | ⟨_, _, hm⟩
+    · -- a canonical string has no `x`
+      have hdig := natDec_all_digits v.natAbs
+      rw [hnd] at hdig
+      simp only [List.all_cons, Bool.and_eq_true] at hdig
+      rcases hx with rfl | rfl <;> exact absurd hdig.2.1 (by decide)
+    · by_cases h10 : v.natAbs < 10
+      · exact h10
+      · have := valOf16_natDec_gt h10
+        omega
+  · exact storeInt_canon_base16 t range hints v hb hwf hlo hhi hin
+
 /-! ### which base a hint set selects -/
 
 theorem hintBit_mod128 (hints bit : Nat) (hb : bit = 2 ∨ bit = 4 ∨ bit = 8 ∨ bit = 16) :
